@@ -1,43 +1,44 @@
-"""C13 - depth normalisation reorients coordinates and data together, idempotently."""
+"""C13 - depth normalisation reorients coordinates and data together, idempotently.
+
+The rules identify the *roles* in normalize_depth_variables by data flow, not by variable
+names: the input dataset (parameter 0), the working copy (everything whose only root is
+`dataset.copy()`), the input variable and the copy's variable, the "current sign" variable
+(the local compared with `positive_down` in the guard of the negations), the "current
+ordering" variable (the local compared with `deep_to_shallow` in the guard of the
+reversal).  Guards are read as path conditions (inverted tests, early `continue`, De Morgan
+forms and extracted helpers - inlined by the normaliser - give the same conditions).
+"""
 from __future__ import annotations
 
 import ast
 
 from ..effects import roots_of, writes_through
-from ..model import const_value, dotted, kwarg, norm_text, walk_no_nested
+from ..model import const_value, dotted, norm_text, walk_no_nested
 from ..report import Context
-from .common import arg_or_kw, calls_in, callee, enclosing_ifs, is_none, method_calls
+from .common import arg_or_kw, calls_in, callee, is_none, method_calls, positive_conditions
 
 DEPTH = 'emsarray.operations.depth'
 BASE = 'emsarray.conventions._base.Convention'
+PD, D2S = 'positive_down', 'deep_to_shallow'
 
 
-def _is_negation_of_values(flow, expr, obj_canon) -> bool:
-    e = flow.resolve(expr)
-    inner = None
-    if isinstance(e, ast.UnaryOp) and isinstance(e.op, ast.USub):
-        inner = e.operand
-    elif isinstance(e, ast.BinOp) and isinstance(e.op, ast.Mult):
+def _negated_operand(e):
+    if isinstance(e, ast.UnaryOp) and isinstance(e.op, ast.USub) and not isinstance(e.operand, ast.Constant):
+        return e.operand
+    if isinstance(e, ast.BinOp) and isinstance(e.op, ast.Mult):
         if const_value(e.left, None) == -1:
-            inner = e.right
-        elif const_value(e.right, None) == -1:
-            inner = e.left
-    if inner is None:
-        return False
-    inner = flow.resolve(inner)
-    return isinstance(inner, ast.Attribute) and inner.attr in ('values', 'data') and flow.canon(inner.value) == obj_canon
-
-
-def _guard_tests(fi, node):
-    return [(norm_text(st.test), inb) for st, inb in enclosing_ifs(fi, node)]
+            return e.right
+        if const_value(e.right, None) == -1:
+            return e.left
+    return None
 
 
 def run(ctx: Context) -> None:
     p = ctx.p
-    ctx.rule('R13.1', "purity: nothing is stored through an alias of the input dataset; all writes go to the copy", floor=2)
-    ctx.rule('R13.2', "the flip decision reads the 'positive' attribute of the input variable, not of the copy whose attribute was just overwritten", floor=2)
-    ctx.rule('R13.3', "coordinate values and their bounds are negated under the same guard (requested sign set and different from the data's), stored back under their own names with dims, attrs and encoding kept; the current sign is updated before the ordering test", floor=7)
-    ctx.rule('R13.4', "ordering is read from the first two (possibly flipped) values, deep-to-shallow iff (d1 > d2) == positive-down, and a mismatch reverses the whole dataset along the coordinate's dimension", floor=4)
+    ctx.rule('R13.1', "purity: nothing is stored through an alias of the input dataset; all writes go to the copy", floor=4)
+    ctx.rule('R13.2', "the flip decision reads the 'positive' attribute of the input variable, not of the copy whose attribute was just overwritten", floor=3)
+    ctx.rule('R13.3', "coordinate values and their bounds are negated under the same guard (requested sign set and different from the data's), stored back under their own names with dims, attrs and encoding kept; bounds are looked up dataset-wide; the current sign is updated before the ordering test", floor=8)
+    ctx.rule('R13.4', "ordering is read from the first two (possibly flipped) values of the copy, deep-to-shallow iff (d1 > d2) == positive-down, and a mismatch reverses the whole dataset along the coordinate's dimension", floor=4)
     ctx.rule('R13.5', "each transformation is dominated by its `is not None` guard and by a comparison of current with requested state (unset options leave that aspect untouched; a second application is a no-op)", floor=4)
     ctx.rule('R13.6', "the convention method forwards the dataset, its depth coordinates and both options unchanged", floor=1)
     ctx.assume("xarray Dataset.copy() gives independent attribute dictionaries and variables; assign/assign_coords/isel return new datasets")
@@ -45,6 +46,57 @@ def run(ctx: Context) -> None:
     fi = ctx.func(f"{DEPTH}.normalize_depth_variables")
     flow = ctx.flow(fi)
     ds = fi.params[0]
+    ctx.require(PD in fi.params and D2S in fi.params, "normalize_depth_variables no longer has positive_down / deep_to_shallow options")
+
+    def kind(e) -> str:
+        roots = roots_of(flow, e)
+        if roots == {'fresh'}:
+            return 'copy'
+        if ('param:' + ds) in roots and 'unknown' not in roots:
+            return 'input'
+        return 'other'
+
+    def is_param(e, name) -> bool:
+        return flow.canon(e) == ('param', name)
+
+    def requested(conds, name) -> bool:
+        return any(isinstance(t, ast.Compare) and len(t.ops) == 1 and isinstance(t.ops[0], ast.Is) and is_none(t.comparators[0])
+                   and is_param(t.left, name) and pol is False for t, pol in conds)
+
+    def differs(conds, name):
+        """The expression compared (unequal) with option `name` on this path, or None."""
+        for t, pol in conds:
+            if isinstance(t, ast.Compare) and len(t.ops) == 1 and isinstance(t.ops[0], ast.Eq) and pol is False:
+                a, b = t.left, t.comparators[0]
+                if is_param(b, name) and not is_param(a, name):
+                    return a
+                if is_param(a, name) and not is_param(b, name):
+                    return b
+        return None
+
+    def show(conds):
+        return [(norm_text(t), pol) for t, pol in conds]
+
+    def dataset_like(e, seen=None) -> bool:
+        """e denotes a whole dataset derived from the copy (not one of its variables)."""
+        seen = set() if seen is None else seen
+        e = flow.resolve(e)
+        if isinstance(e, ast.Call) and isinstance(e.func, ast.Attribute) and e.func.attr in ('copy', 'assign', 'assign_coords', 'isel'):
+            if e.func.attr == 'copy' and is_param(e.func.value, ds):
+                return True
+            return dataset_like(e.func.value, seen)
+        if isinstance(e, ast.Name):
+            defs = flow.defs_of(e)
+            if not defs:
+                return False
+            for d in defs:
+                if id(d) in seen:
+                    continue        # loop-carried definition already being examined
+                seen.add(id(d))
+                if d.value is None or d.kind not in ('assign', 'walrus') or not dataset_like(d.value, seen):
+                    return False
+            return True
+        return False
 
     # ---- R13.1
     with ctx.section('R13.1'):
@@ -56,204 +108,302 @@ def run(ctx: Context) -> None:
         ok_ret = bool(rets) and all('param:' + ds not in roots_of(flow, r.value) for r in rets)
         ctx.check('R13.1', len(copies) >= 1 and ok_ret, "the result is built from dataset.copy(), never the input object", fi, copies[0] if copies else fi.node,
                   construct='new_dataset = dataset.copy(); return new_dataset')
+        from .common import iterable_param_obligations
+        iterable_param_obligations(ctx, 'R13.1', fi)
+        # the copy is shallow: its variables share their value buffers with the input
+        inplace = []
+        for n in walk_no_nested(fi.node):
+            if isinstance(n, ast.AugAssign):
+                base = n.target
+                while isinstance(base, (ast.Subscript, ast.Attribute)):
+                    base = base.value
+                if isinstance(base, ast.Name):
+                    if isinstance(base.ctx, ast.Store):
+                        probe = ast.copy_location(ast.Name(id=base.id, ctx=ast.Load()), base)
+                        flow.uses[id(probe)] = list(flow.env_at.get(id(n), {}).get(base.id, []))
+                    else:
+                        probe = base
+                    if kind(probe) in ('copy', 'input'):
+                        inplace.append((n, f"in-place `{norm_text(n)}`"))
+            if isinstance(n, ast.Assign):
+                for t in n.targets:
+                    if isinstance(t, ast.Subscript):
+                        holder = flow.resolve(t.value)
+                        if isinstance(holder, ast.Attribute) and holder.attr in ('values', 'data') and kind(holder.value) in ('copy', 'input'):
+                            inplace.append((n, f"element store `{norm_text(t)} = ...`"))
+                        elif kind(t.value) == 'copy' and not dataset_like(t.value) and not (isinstance(holder, ast.Attribute) and holder.attr in ('attrs', 'encoding')):
+                            inplace.append((n, f"element store `{norm_text(t)} = ...`"))
+        ctx.check('R13.1', not inplace, "no in-place arithmetic or element store on the copy's variables (Dataset.copy() is shallow: the buffers are the input's)", fi,
+                  inplace[0][0] if inplace else fi.node, construct='in-place updates of shared buffers: ' + ('; '.join(h for _, h in inplace) or 'none'))
 
-    # ---- locate the pieces
-    with ctx.section('locate the pieces'):
-        loops = [n for n in walk_no_nested(fi.node) if isinstance(n, ast.For)]
-        ctx.need('R13.2', len(loops) >= 1, "normalize_depth_variables iterates over the depth coordinates", fi)
-        # data_positive_down definitions
-        dpd = [n for n in walk_no_nested(fi.node) if isinstance(n, ast.Assign) and len(n.targets) == 1
-               and isinstance(n.targets[0], ast.Name) and n.targets[0].id == 'data_positive_down']
-        ctx.need('R13.2', len(dpd) >= 2, "the current sign of the data is tracked in one variable", fi)
-        attr_defs = [n for n in dpd if isinstance(n.value, ast.Compare) and len(n.value.ops) == 1 and isinstance(n.value.ops[0], ast.Eq)
-                     and const_value(n.value.comparators[0], None) in ('down', 'up')]
-        ok2 = False
-        for n in attr_defs:
-            src = flow.resolve(n.value.left)
+    # ---- the negations and the sign variable
+    with ctx.section('negations'):
+        flips = [n for n in ast.walk(fi.node) if _negated_operand(n) is not None]
+        ctx.need('R13.3', len(flips) >= 2, "coordinate and bounds values are negated", fi)
+        sign_uses = []
+        for n in flips:
+            conds = positive_conditions(fi, n)
+            other = differs(conds, PD)
+            ok = requested(conds, PD) and other is not None
+            ctx.check('R13.5', ok, "values are negated only when a sign is requested and differs from the data's", fi, n,
+                      construct=f"negation `{norm_text(n)}` under {show(conds)}")
+            if isinstance(other, ast.Name):
+                sign_uses.append(other)
+        ctx.need('R13.2', bool(sign_uses) and len({u.id for u in sign_uses}) == 1, "the current sign of the data is tracked in one variable compared with positive_down", fi)
+        S = sign_uses[0].id
+        reach = {frozenset(id(d) for d in flow.defs_of(u)) for u in sign_uses}
+        ctx.check('R13.3', len(reach) == 1 and len(sign_uses) == len(flips), "coordinate and bounds negation sit under the same guard (the same comparison of the same current sign)", fi, flips[-1],
+                  construct=f"{len(flips)} negations guarded by `{S} != {PD}`")
+        sign_defs = [n for n in walk_no_nested(fi.node) if isinstance(n, (ast.Assign, ast.AnnAssign)) and n.value is not None
+                     and isinstance(n.targets[0] if isinstance(n, ast.Assign) else n.target, ast.Name)
+                     and (n.targets[0] if isinstance(n, ast.Assign) else n.target).id == S]
+
+    # ---- R13.2 reads of the 'positive' attribute
+    with ctx.section('R13.2'):
+        reads = []
+        for n in ast.walk(fi.node):
             obj = None
-            if isinstance(src, ast.Call) and isinstance(src.func, ast.Attribute) and src.func.attr == 'get' and src.args \
-                    and const_value(src.args[0], None) == 'positive':
-                obj = src.func.value
-            elif isinstance(src, ast.Subscript) and const_value(src.slice, None) == 'positive':
-                obj = src.value
-            if obj is not None and isinstance(obj, ast.Attribute) and obj.attr == 'attrs':
-                roots = roots_of(flow, obj.value)
-                ok2 = ('param:' + ds) in roots and 'unknown' not in roots
-                want_down = const_value(n.value.comparators[0], None) == 'down'
-                ctx.check('R13.2', ok2 and want_down, "data_positive_down = (<input variable>.attrs['positive'] == 'down')", fi, n,
-                          detail=f"roots of the object read: {sorted(roots)}")
-        ctx.need('R13.2', bool(attr_defs), "the sign is read from the 'positive' attribute", fi)
-        # the membership test guarding it also reads the input
-        tests = [st for st in walk_no_nested(fi.node) if isinstance(st, ast.If) and isinstance(st.test, ast.Compare)
-                 and const_value(st.test.left, None) == 'positive' and isinstance(st.test.ops[0], ast.In)]
-        ok_t = bool(tests) and all(isinstance(t.test.comparators[0], ast.Attribute) and 'param:' + ds in roots_of(flow, t.test.comparators[0].value)
-                                   and 'new' not in norm_text(t.test.comparators[0]) for t in tests)
-        ctx.check('R13.2', ok_t, "'positive' in <input variable>.attrs decides between attribute and guess", fi, tests[0] if tests else fi.node,
-                  construct=f"test: {norm_text(tests[0].test) if tests else '?'}")
+            if isinstance(n, ast.Subscript) and isinstance(n.ctx, ast.Load) and const_value(n.slice, None) == 'positive':
+                obj = n.value
+            elif isinstance(n, ast.Call) and isinstance(n.func, ast.Attribute) and n.func.attr == 'get' and n.args and const_value(n.args[0], None) == 'positive':
+                obj = n.func.value
+            elif isinstance(n, ast.Compare) and len(n.ops) == 1 and isinstance(n.ops[0], (ast.In, ast.NotIn)) and const_value(n.left, None) == 'positive':
+                obj = n.comparators[0]
+            if obj is None:
+                continue
+            o = flow.resolve(obj)
+            if isinstance(o, ast.Attribute) and o.attr == 'attrs':
+                reads.append((n, o.value))
+        ctx.need('R13.2', len(reads) >= 2, "the 'positive' attribute is tested for and read", fi)
+        for n, owner in reads:
+            ctx.check('R13.2', kind(owner) == 'input', "every read of the 'positive' attribute looks at the input variable (the copy's was just overwritten)", fi, n,
+                      construct=f"{norm_text(n)} reads {norm_text(owner)} ({kind(owner)})")
+        ok = False
+        for d in sign_defs:
+            v = d.value
+            if isinstance(v, ast.Compare) and len(v.ops) == 1 and isinstance(v.ops[0], ast.Eq):
+                sides = [v.left, v.comparators[0]]
+                for a, b in (sides, sides[::-1]):
+                    if const_value(b, None) == 'down' and any(flow.resolve(a) is r for r, _ in reads):
+                        ok = True
+        ctx.check('R13.2', ok, "current sign = (<input variable>.attrs['positive'] == 'down')", fi, sign_defs[0] if sign_defs else fi.node,
+                  construct=f"definitions of {S}: {[norm_text(d.value)[:60] for d in sign_defs]}")
 
     # ---- R13.5 attribute overwrite
     with ctx.section('R13.5 attribute overwrite'):
         attr_sets = [n for n in walk_no_nested(fi.node) if isinstance(n, ast.Assign) and isinstance(n.targets[0], ast.Subscript)
                      and const_value(n.targets[0].slice, None) == 'positive']
-        ok5 = False
-        for n in attr_sets:
-            g = _guard_tests(fi, n)
-            v = n.value
-            ok_v = (isinstance(v, ast.IfExp) and const_value(v.body, None) == 'down' and const_value(v.orelse, None) == 'up'
-                    and flow.canon(v.test) == ('param', 'positive_down'))
-            ok5 = ('positive_down is not None', True) in g and ok_v
-            ctx.check('R13.5', ok5, "the positive attribute is rewritten only when positive_down is given: 'down' if positive_down else 'up'", fi, n)
         ctx.need('R13.5', bool(attr_sets), "the positive attribute of the copy is set", fi)
+        seen_vals = set()
+        for n in attr_sets:
+            conds = positive_conditions(fi, n)
+            v = n.value
+            truth = [pol for t, pol in conds if is_param(t, PD)]
+            ok_v = False
+            if isinstance(v, ast.IfExp):
+                test, yes, no = v.test, v.body, v.orelse
+                if isinstance(test, ast.UnaryOp) and isinstance(test.op, ast.Not):
+                    test, yes, no = test.operand, no, yes
+                ok_v = is_param(test, PD) and const_value(yes, None) == 'down' and const_value(no, None) == 'up'
+                seen_vals |= {'down', 'up'}
+            elif const_value(v, None) in ('down', 'up'):
+                ok_v = truth == [const_value(v, None) == 'down']
+                seen_vals.add(const_value(v, None))
+            holder = flow.resolve(n.targets[0].value)
+            on_copy = isinstance(holder, ast.Attribute) and holder.attr == 'attrs' and kind(holder.value) == 'copy'
+            ctx.check('R13.5', requested(conds, PD) and ok_v and on_copy,
+                      "the positive attribute of the copy is rewritten only when positive_down is given: 'down' if positive_down else 'up'", fi, n,
+                      construct=f"{norm_text(n)} under {show(conds)}")
+        if attr_sets:
+            ctx.check('R13.5', seen_vals == {'down', 'up'}, "both values of the attribute are written", fi, attr_sets[0], construct=f"values written: {sorted(seen_vals)}")
 
-    # ---- R13.3 flips
+    # ---- R13.3 what is negated and where it is stored
     with ctx.section('R13.3 flips'):
-        flips = []
-        for n in ast.walk(fi.node):
-            if (isinstance(n, ast.BinOp) and isinstance(n.op, ast.Mult) and (const_value(n.left, None) == -1 or const_value(n.right, None) == -1)) \
-                    or (isinstance(n, ast.UnaryOp) and isinstance(n.op, ast.USub) and not isinstance(n.operand, ast.Constant)):
-                flips.append(n)
-        ctx.need('R13.3', len(flips) >= 2, "coordinate and bounds values are negated", fi)
-        flip_guard = None
+        coord = bounds = None
         for n in flips:
-            g = _guard_tests(fi, n)
-            want = ('positive_down is not None and data_positive_down != positive_down', True)
-            ok = want in g or ('data_positive_down != positive_down and positive_down is not None', True) in g
-            ctx.check('R13.5', ok, "values are negated only when a sign is requested and differs from the data's", fi, n,
-                      construct=f"negation `{norm_text(n)}` under {[t for t, _ in g]}")
-            ifs = [st for st, inb in enclosing_ifs(fi, n)]
-            if flip_guard is None and ifs:
-                flip_guard = ifs[0]
-            same = bool(ifs) and flip_guard is not None and ifs[0] is flip_guard
-            ctx.check('R13.3', same, "coordinate and bounds negation sit under the same guard", fi, n,
-                      construct=f"negation `{norm_text(n)}` guarded by `{norm_text(ifs[0].test) if ifs else 'nothing'}`")
-        # what is negated: the copy's coordinate values, and the bounds named by the coordinate's `bounds` attribute
-        objs = []
-        for n in flips:
-            inner = n.operand if isinstance(n, ast.UnaryOp) else (n.right if const_value(n.left, None) == -1 else n.left)
-            inner = flow.resolve(inner)
-            objs.append(inner)
-        coord_ok = any(isinstance(o, ast.Attribute) and o.attr in ('values', 'data') and isinstance(o.value, ast.Name)
-                       and roots_of(flow, o.value) == {'fresh'} and 'bounds' not in norm_text(o.value) for o in objs)
-        ctx.check('R13.3', coord_ok, "the negated coordinate values are those of the copy's coordinate variable", fi, flips[0],
-                  construct=f"negated: {[norm_text(o) for o in objs]}")
-        bnames = [n for n in walk_no_nested(fi.node) if isinstance(n, ast.Assign) and isinstance(n.value, ast.Subscript)
-                  and const_value(n.value.slice, None) == 'bounds' and isinstance(n.value.value, ast.Attribute) and n.value.value.attr == 'attrs']
+            inner = flow.resolve(_negated_operand(n))
+            if not (isinstance(inner, ast.Attribute) and inner.attr in ('values', 'data')):
+                continue
+            owner = flow.resolve(inner.value)
+            if isinstance(owner, ast.Subscript):
+                key = flow.resolve(owner.slice)
+                if isinstance(key, ast.Subscript) and const_value(key.slice, None) == 'bounds' or \
+                        (isinstance(key, ast.Call) and isinstance(key.func, ast.Attribute) and key.func.attr == 'get' and key.args and const_value(key.args[0], None) == 'bounds'):
+                    bounds = (n, inner, owner, key)
+                    continue
+            if kind(inner.value) == 'copy':
+                coord = (n, inner, owner)
+        ctx.check('R13.3', coord is not None, "the negated coordinate values are those of the copy's coordinate variable", fi, flips[0],
+                  construct=f"negated: {[norm_text(flow.resolve(_negated_operand(n))) for n in flips]}")
+        ctx.need('R13.3', bounds is not None, "the bounds named by the coordinate's `bounds` attribute are negated", fi)
+        bn, binner, bowner, bkey = bounds
+        container = bowner.value
+        dataset_wide = dataset_like(container) and not (isinstance(flow.resolve(container), ast.Attribute))
+        ctx.check('R13.3', dataset_wide, "the bounds variable is looked up in the whole copy (bounds held as coordinates are found too)", fi, bowner,
+                  construct=f"bounds lookup: {norm_text(bowner)}")
+        holder = flow.resolve(bkey.value if isinstance(bkey, ast.Subscript) else bkey.func.value)
+        ctx.check('R13.3', isinstance(holder, ast.Attribute) and holder.attr == 'attrs' and kind(holder.value) == 'copy' or
+                  isinstance(holder, ast.Attribute) and holder.attr == 'attrs' and kind(holder.value) == 'input',
+                  "the bounds name is the `bounds` attribute of the coordinate being flipped", fi, bkey, construct=f"bounds name: {norm_text(bkey)}")
+        # stored back under that name with dims / attrs / encoding
         ok_b = False
-        if bnames:
-            bn = bnames[0]
-            bname_c = flow.canon(bn.targets[0]) if False else None
-            # bounds variable looked up by that name in the copy; negated; assigned back under that name
-            bvar = [n for n in walk_no_nested(fi.node) if isinstance(n, ast.Assign) and isinstance(n.value, ast.Subscript)
-                    and isinstance(n.value.slice, ast.Name) and isinstance(bn.targets[0], ast.Name) and n.value.slice.id == bn.targets[0].id]
-            assigns = [c for c in method_calls(fi, 'assign') if c.args and isinstance(c.args[0], ast.Dict) and len(c.args[0].keys) == 1
-                       and isinstance(c.args[0].keys[0], ast.Name) and isinstance(bn.targets[0], ast.Name) and c.args[0].keys[0].id == bn.targets[0].id]
-            if bvar and assigns:
-                tup = assigns[0].args[0].values[0]
-                bv = bvar[0].targets[0]
-                if isinstance(tup, ast.Tuple) and len(tup.elts) == 4 and isinstance(bv, ast.Name):
-                    ok_b = (norm_text(tup.elts[0]) == f"{bv.id}.dims" and _is_negation_of_values(flow, tup.elts[1], flow.canon(ast.Name(id=bv.id, ctx=ast.Load())) if False else flow.canon(bvar[0].value))
-                            and norm_text(tup.elts[2]) == f"{bv.id}.attrs" and norm_text(tup.elts[3]) == f"{bv.id}.encoding"
-                            and roots_of(flow, bvar[0].value.value) == {'fresh'})
+        bstore = None
+        for c in method_calls(fi, 'assign'):
+            d = flow.resolve(c.args[0]) if c.args else None
+            if not (isinstance(d, ast.Dict) and len(d.keys) == 1 and d.keys[0] is not None):
+                continue
+            tup = flow.resolve(d.values[0])
+            if not (isinstance(tup, ast.Tuple) and len(tup.elts) == 4 and flow.resolve(tup.elts[1]) is bn):
+                continue
+            bstore = c
+            oc = flow.canon(binner.value)
+            ok_b = (flow.canon(d.keys[0]) == flow.canon(bowner.slice) and dataset_like(c.func.value)
+                    and all(isinstance(flow.resolve(e), ast.Attribute) and flow.resolve(e).attr == a and flow.canon(flow.resolve(e).value) == oc
+                            for e, a in ((tup.elts[0], 'dims'), (tup.elts[2], 'attrs'), (tup.elts[3], 'encoding')))
+                    and all(flow.reaches(r.value, lambda x: x is c) for r in fi.returns()))
         ctx.check('R13.3', ok_b, "bounds named by the coordinate's `bounds` attribute are negated and stored back under that name with dims/attrs/encoding", fi,
-                  bnames[0] if bnames else fi.node, construct='new_dataset.assign({bounds_name: (dims, -1 * values, attrs, encoding)})')
-        missing_ok = any(isinstance(n, ast.Try) and any(norm_text(h.type) == 'KeyError' for h in n.handlers if h.type is not None)
-                         and any(b is bnames[0] for b in n.body) for n in walk_no_nested(fi.node)) if bnames else False
-        ctx.check('R13.3', missing_ok, "a coordinate without bounds is simply not bounds-flipped", fi, bnames[0] if bnames else fi.node,
-                  construct='try: bounds lookup except KeyError')
-        # stored back under the coordinate's own name, both for dimension and non dimension coordinates
-        stores = [c for c in calls_in(fi) if isinstance(c.func, ast.Attribute) and c.func.attr in ('assign', 'assign_coords')
-                  and c.args and isinstance(c.args[0], ast.Dict) and len(c.args[0].keys) == 1 and norm_text(c.args[0].keys[0]) == 'name']
-        ok_s = len(stores) == 2
-        for c in stores:
-            v = c.args[0].values[0]
-            if c.func.attr == 'assign':
-                ok_s = ok_s and isinstance(v, ast.Tuple) and len(v.elts) == 4 and norm_text(v.elts[0]) == '[dimension]' \
-                    and norm_text(v.elts[2]).endswith('.attrs') and norm_text(v.elts[3]).endswith('.encoding')
-            g = _guard_tests(fi, c)
-            ok_s = ok_s and ((('name == dimension', True) in g) == (c.func.attr == 'assign_coords'))
-        ctx.check('R13.3', ok_s, "flipped values replace the coordinate under its own name (assign_coords for a dimension coordinate, assign otherwise)", fi,
-                  stores[0] if stores else fi.node, construct=f"stores: {[norm_text(c.func) for c in stores]}")
-        # attrs and encoding of a dimension coordinate are carried over too
-        carry = [n for n in walk_no_nested(fi.node) if isinstance(n, ast.Assign) and isinstance(n.targets[0], ast.Attribute)
-                 and n.targets[0].attr in ('attrs', 'encoding') and norm_text(n.targets[0].value) == 'new_dataset[name]']
-        ctx.check('R13.3', {n.targets[0].attr for n in carry} == {'attrs', 'encoding'}, "a flipped dimension coordinate keeps its attrs and encoding", fi,
-                  carry[0] if carry else fi.node, construct=f"carried: {sorted(n.targets[0].attr for n in carry)}")
-        upd = [n for n in dpd if flow.canon(n.value) == ('param', 'positive_down')]
+                  bstore or bn, construct='copy.assign({bounds_name: (dims, -1 * values, attrs, encoding)})')
+        tries = [t for t in walk_no_nested(fi.node) if isinstance(t, ast.Try) and any(h.type is not None and 'KeyError' in norm_text(h.type) for h in t.handlers)
+                 and any(x is bkey for b in t.body for x in ast.walk(b))]
+        guarded = any(isinstance(t, ast.Compare) and isinstance(t.ops[0], ast.In) and const_value(t.left, None) == 'bounds' and pol for t, pol in positive_conditions(fi, bn))
+        ctx.check('R13.3', bool(tries) or guarded or isinstance(bkey, ast.Call), "a coordinate without bounds is simply not bounds-flipped", fi, bkey,
+                  construct='bounds lookup tolerates a missing attribute / variable')
+        # coordinate stored back under its own name
+        if coord is not None:
+            cn, cinner, cowner = coord
+            key_c = flow.canon(cowner.slice) if isinstance(cowner, ast.Subscript) else None
+            stores = []
+            for c in calls_in(fi):
+                if not (isinstance(c.func, ast.Attribute) and c.func.attr in ('assign', 'assign_coords') and c.args):
+                    continue
+                d = flow.resolve(c.args[0])
+                if not (isinstance(d, ast.Dict) and len(d.keys) == 1 and d.keys[0] is not None and flow.canon(d.keys[0]) == key_c):
+                    continue
+                stores.append((c, d))
+            ok_s = len(stores) == 2 and {c.func.attr for c, _ in stores} == {'assign', 'assign_coords'}
+            vc = flow.canon(cinner.value)
+            detail = []
+            for c, d in stores:
+                v = flow.resolve(d.values[0])
+                conds = positive_conditions(fi, c)
+                isdim = [pol for t, pol in conds if isinstance(t, ast.Compare) and len(t.ops) == 1 and isinstance(t.ops[0], ast.Eq)
+                         and key_c in (flow.canon(t.left), flow.canon(t.comparators[0]))
+                         and any(isinstance(x, tuple) and x[0] == 'sub' and isinstance(x[1], tuple) and x[1][0] == 'attr' and x[1][2] == 'dims'
+                                 for x in (flow.canon(t.left), flow.canon(t.comparators[0])))]
+                detail.append(f"{c.func.attr} when name == dimension is {isdim}")
+                if c.func.attr == 'assign':
+                    ok_s = ok_s and isdim == [False] and isinstance(v, ast.Tuple) and len(v.elts) == 4 and flow.resolve(v.elts[1]) is cn \
+                        and isinstance(flow.resolve(v.elts[0]), ast.List) and len(flow.resolve(v.elts[0]).elts) == 1 \
+                        and all(isinstance(flow.resolve(e), ast.Attribute) and flow.resolve(e).attr == a and flow.canon(flow.resolve(e).value) == vc
+                                for e, a in ((v.elts[2], 'attrs'), (v.elts[3], 'encoding')))
+                else:
+                    ok_s = ok_s and isdim == [True] and v is cn
+                ok_s = ok_s and dataset_like(c.func.value) and all(flow.reaches(r.value, lambda x: x is c) for r in fi.returns())
+            ctx.check('R13.3', ok_s, "flipped values replace the coordinate under its own name (assign_coords for a dimension coordinate, assign otherwise)", fi,
+                      stores[0][0] if stores else cn, construct=f"stores: {detail}")
+            carry = [n for n in walk_no_nested(fi.node) if isinstance(n, ast.Assign) and isinstance(n.targets[0], ast.Attribute)
+                     and n.targets[0].attr in ('attrs', 'encoding') and isinstance(flow.resolve(n.targets[0].value), ast.Subscript)
+                     and flow.canon(flow.resolve(n.targets[0].value).slice) == key_c and kind(n.targets[0].value) == 'copy'
+                     and isinstance(flow.resolve(n.value), ast.Attribute) and flow.resolve(n.value).attr == n.targets[0].attr and flow.canon(flow.resolve(n.value).value) == vc]
+            ctx.check('R13.3', {n.targets[0].attr for n in carry} == {'attrs', 'encoding'}, "a flipped dimension coordinate keeps its attrs and encoding", fi,
+                      carry[0] if carry else cn, construct=f"carried: {sorted(n.targets[0].attr for n in carry)}")
+        upd = [d for d in sign_defs if is_param(d.value, PD)]
         ok_u = False
-        if upd and flip_guard is not None:
-            ok_u = any(st is flip_guard for st, inb in enclosing_ifs(fi, upd[0]))
-        ctx.check('R13.3', ok_u, "after a flip the current sign becomes the requested one (inside the flip guard, before the ordering test)", fi,
-                  upd[0] if upd else fi.node, construct='data_positive_down = positive_down')
+        if upd:
+            conds = positive_conditions(fi, upd[0])
+            other = differs(conds, PD)
+            ok_u = requested(conds, PD) and isinstance(other, ast.Name) and other.id == S
+        ctx.check('R13.3', ok_u and len(upd) == 1, "after a flip the current sign becomes the requested one (inside the flip guard)", fi,
+                  upd[0] if upd else fi.node, construct=f"{S} = {PD}")
 
     # ---- R13.4 ordering
     with ctx.section('R13.4 ordering'):
-        order = [n for n in walk_no_nested(fi.node) if isinstance(n, ast.Assign) and isinstance(n.targets[0], ast.Name)
-                 and n.targets[0].id == 'data_deep_to_shallow']
-        ctx.need('R13.4', len(order) == 1, "the current ordering is computed once", fi)
-        ov = order[0].value
-        ok_o = False
-        if isinstance(ov, ast.Compare) and len(ov.ops) == 1 and isinstance(ov.left, ast.Compare) and len(ov.left.ops) == 1:
-            a, b = ov.left.left, ov.left.comparators[0]
-            ca, cb = flow.canon(a), flow.canon(b)
-            first_two = (ca[0] == 'unpack' and cb[0] == 'unpack' and ca[1] == cb[1] and ca[2] == (0,) and cb[2] == (1,))
-            dpd_side = isinstance(ov.comparators[0], ast.Name) and ov.comparators[0].id == 'data_positive_down'
-            gt = isinstance(ov.left.ops[0], ast.Gt)
-            lt = isinstance(ov.left.ops[0], ast.Lt)
-            eq = isinstance(ov.ops[0], ast.Eq)
-            ne = isinstance(ov.ops[0], ast.NotEq)
-            ok_o = first_two and dpd_side and ((gt and eq) or (lt and ne))
-            src = None
-            for n in walk_no_nested(fi.node):
-                if isinstance(n, ast.Assign) and isinstance(n.targets[0], ast.Tuple) and len(n.targets[0].elts) == 2 \
-                        and isinstance(a, ast.Name) and isinstance(n.targets[0].elts[0], ast.Name) and n.targets[0].elts[0].id == a.id:
-                    src = n.value
-            ok_src = (isinstance(src, ast.Subscript) and isinstance(src.slice, ast.Slice) and const_value(src.slice.lower, 0) == 0
-                      and const_value(src.slice.upper, None) == 2 and src.slice.step is None
-                      and isinstance(src.value, ast.Attribute) and src.value.attr in ('values', 'data')
-                      and roots_of(flow, src.value.value) == {'fresh'})
-            ctx.check('R13.4', bool(ok_src), "the two values compared are the first two of the copy's (possibly flipped) coordinate", fi, order[0],
-                      construct=f"d1, d2 = {norm_text(src) if src is not None else '?'}")
-        ctx.check('R13.4', ok_o, "deep-to-shallow iff (first > second) == positive-down", fi, order[0])
-        revs = [c for c in method_calls(fi, 'isel')]
-        ok_r = False
-        for c in revs:
-            if c.args and isinstance(c.args[0], ast.Dict) and len(c.args[0].keys) == 1:
-                v = c.args[0].values[0]
+        revs = []
+        for c in method_calls(fi, 'isel'):
+            d = flow.resolve(c.args[0]) if c.args else None
+            if isinstance(d, ast.Dict) and len(d.keys) == 1 and d.keys[0] is not None:
+                v = flow.resolve(d.values[0])
                 rev_slice = (isinstance(v, ast.Subscript) and norm_text(v.value).endswith('s_') and isinstance(v.slice, ast.Slice)
                              and v.slice.lower is None and v.slice.upper is None and const_value(v.slice.step, None) == -1) or \
                     (isinstance(v, ast.Call) and dotted(v.func) == 'slice' and [const_value(x, 'x') for x in v.args] == [None, None, -1])
-                on_dataset = roots_of(flow, c.func.value) == {'fresh'} and isinstance(c.func.value, ast.Name)
-                dim_ok = norm_text(c.args[0].keys[0]) == 'dimension'
-                g = _guard_tests(fi, c)
-                guard_ok = ('deep_to_shallow is not None', True) in g and (('data_deep_to_shallow != deep_to_shallow', True) in g or ('deep_to_shallow != data_deep_to_shallow', True) in g)
-                ctx.check('R13.5', guard_ok, "the reversal happens only when an ordering is requested and differs from the data's", fi, c,
-                          construct=f"reversal under {[t for t, _ in g]}")
-                ok_r = rev_slice and on_dataset and dim_ok
-                # the reversed dataset replaces the working copy
-                st = [n for n in walk_no_nested(fi.node) if isinstance(n, ast.Assign) and n.value is c]
-                ok_r = ok_r and bool(st) and norm_text(st[0].targets[0]) == norm_text(c.func.value)
-        ctx.check('R13.4', ok_r, "a mismatch reverses the whole dataset along the coordinate's dimension ([::-1])", fi, revs[0] if revs else fi.node,
-                  construct=f"reversal: {norm_text(revs[0]) if revs else 'absent'}")
-        dims = [n for n in walk_no_nested(fi.node) if isinstance(n, ast.Assign) and norm_text(n.targets[0]) == 'dimension']
-        ok_d = len(dims) == 1 and isinstance(dims[0].value, ast.Subscript) and const_value(dims[0].value.slice, None) == 0 \
-            and isinstance(dims[0].value.value, ast.Attribute) and dims[0].value.value.attr == 'dims'
-        multi = [n for n in walk_no_nested(fi.node) if isinstance(n, ast.Raise)]
-        ok_m = any(('len(variable.dims) != 1', True) in _guard_tests(fi, r) for r in multi)
-        ctx.check('R13.4', ok_d and ok_m, "the dimension is the coordinate's single dimension; multidimensional depth variables are refused", fi,
-                  dims[0] if dims else fi.node, construct='dimension = variable.dims[0] after `len(variable.dims) != 1` raises')
+                if rev_slice:
+                    revs.append((c, d))
+        ctx.need('R13.4', len(revs) == 1, "a mismatch in ordering reverses along one dimension ([::-1])", fi)
+        rc, rd = revs[0]
+        conds = positive_conditions(fi, rc)
+        other = differs(conds, D2S)
+        ctx.check('R13.5', requested(conds, D2S) and other is not None, "the reversal happens only when an ordering is requested and differs from the data's", fi, rc,
+                  construct=f"reversal under {show(conds)}")
+        dim_c = flow.canon(rd.keys[0])
+        dim_ok = isinstance(dim_c, tuple) and dim_c[0] == 'sub' and dim_c[2] == ('const', '0') and isinstance(dim_c[1], tuple) and dim_c[1][0] == 'attr' and dim_c[1][2] == 'dims'
+        ok_r = dim_ok and dataset_like(rc.func.value) and all(flow.reaches(r.value, lambda x: x is rc) for r in fi.returns())
+        ctx.check('R13.4', ok_r, "a mismatch reverses the whole dataset along the coordinate's dimension ([::-1]) and the result replaces the working copy", fi, rc,
+                  construct=f"reversal: {norm_text(rc)}")
+        ok_o = ok_src = False
+        src_txt = '?'
+        ov = flow.resolve(other) if other is not None else None
+        if isinstance(ov, ast.Compare) and len(ov.ops) == 1:
+            sides = [ov.left, ov.comparators[0]]
+            for cmp_side, sign_side in (sides, sides[::-1]):
+                cs = flow.resolve(cmp_side) if isinstance(cmp_side, ast.Name) else cmp_side
+                if not (isinstance(cs, ast.Compare) and len(cs.ops) == 1 and isinstance(sign_side, ast.Name) and sign_side.id == S):
+                    continue
+                a, b = cs.left, cs.comparators[0]
+                ca, cb = flow.canon(a), flow.canon(b)
+                first_two = (ca[0] == 'unpack' and cb[0] == 'unpack' and ca[1] == cb[1] and ca[2] == (0,) and cb[2] == (1,)) or \
+                    (ca[0] == 'sub' and cb[0] == 'sub' and ca[1] == cb[1] and ca[2] == ('const', '0') and cb[2] == ('const', '1'))
+                gt, lt = isinstance(cs.ops[0], ast.Gt), isinstance(cs.ops[0], ast.Lt)
+                eq, ne = isinstance(ov.ops[0], ast.Eq), isinstance(ov.ops[0], ast.NotEq)
+                # the sign used here must be the one updated by the flip
+                upd_seen = any(is_param(d.value, PD) for d in flow.defs_of(sign_side) if d.value is not None)
+                ok_o = first_two and ((gt and eq) or (lt and ne)) and upd_seen
+                src = None
+                if ca[0] == 'unpack' and isinstance(a, ast.Name):
+                    d0 = flow.single_def(a)
+                    src = d0.value if d0 is not None else None
+                elif isinstance(a, ast.Subscript):
+                    src = a.value
+                src = flow.resolve(src) if src is not None else None
+                vals = src
+                if isinstance(src, ast.Subscript) and isinstance(src.slice, ast.Slice):
+                    ok_slice = const_value(src.slice.lower, 0) == 0 and const_value(src.slice.upper, None) == 2 and src.slice.step is None
+                    vals = flow.resolve(src.value)
+                else:
+                    ok_slice = ca[0] == 'sub'
+                ok_src = bool(ok_slice and isinstance(vals, ast.Attribute) and vals.attr in ('values', 'data') and kind(vals.value) == 'copy')
+                src_txt = norm_text(src) if src is not None else '?'
+        ctx.check('R13.4', ok_src, "the two values compared are the first two of the copy's (possibly flipped) coordinate", fi, other if other is not None else rc,
+                  construct=f"d1, d2 = {src_txt}")
+        ctx.check('R13.4', ok_o, "deep-to-shallow iff (first > second) == positive-down, with the sign as updated by the flip", fi, other if other is not None else rc,
+                  construct=f"current ordering: {norm_text(ov) if ov is not None else '?'}")
+        # single dimension
+        ok_m = False
+        if dim_ok:
+            vcanon = dim_c[1][1]
+            for r in [n for n in walk_no_nested(fi.node) if isinstance(n, ast.Raise)]:
+                for t, pol in positive_conditions(fi, r):
+                    if isinstance(t, ast.Compare) and len(t.ops) == 1 and isinstance(t.ops[0], ast.Eq) and pol is False and const_value(t.comparators[0], None) == 1 \
+                            and flow.canon(t.left) == ('call', ('global', 'len'), (('attr', vcanon, 'dims'),), ()):
+                        ok_m = True
+            ok_m = ok_m and kind(rd.keys[0]) == 'input'
+        ctx.check('R13.4', ok_m, "the dimension is the input coordinate's single dimension; multidimensional depth variables are refused", fi,
+                  rd.keys[0], construct=f"dimension = {norm_text(flow.resolve(rd.keys[0]))} after `len(dims) != 1` raises")
 
     # ---- R13.6 wrapper
     with ctx.section('R13.6 wrapper'):
         for w in p.implementations(p.cls(BASE), 'normalize_depth_variables'):
             wf = ctx.flow(w)
             cs = [c for c in calls_in(w) if callee(ctx, w, c) == f"{DEPTH}.normalize_depth_variables"]
-            ok = (len(cs) == 1 and len(cs[0].args) == 2 and wf.canon(cs[0].args[0]) == ('attr', ('param', 'self'), 'dataset')
-                  and wf.canon(cs[0].args[1]) == ('attr', ('param', 'self'), 'depth_coordinates')
-                  and kwarg(cs[0], 'positive_down') is not None and wf.canon(kwarg(cs[0], 'positive_down')) == ('param', 'positive_down')
-                  and kwarg(cs[0], 'deep_to_shallow') is not None and wf.canon(kwarg(cs[0], 'deep_to_shallow')) == ('param', 'deep_to_shallow')
-                  and all(wf.resolve(r.value) is cs[0] for r in w.returns()))
+            ok = False
+            if len(cs) == 1:
+                a0, a1 = arg_or_kw(cs[0], 0, 'dataset'), arg_or_kw(cs[0], 1, 'depth_coordinates')
+                k1, k2 = arg_or_kw(cs[0], 99, PD), arg_or_kw(cs[0], 99, D2S)
+                ok = (a0 is not None and wf.canon(a0) == ('attr', ('param', 'self'), 'dataset')
+                      and a1 is not None and wf.canon(a1) == ('attr', ('param', 'self'), 'depth_coordinates')
+                      and k1 is not None and wf.canon(k1) == ('param', PD) and k2 is not None and wf.canon(k2) == ('param', D2S)
+                      and len(cs[0].args) + len(cs[0].keywords) == 4
+                      and all(wf.resolve(r.value) is cs[0] for r in w.returns()))
             ctx.check('R13.6', ok, "Convention.normalize_depth_variables forwards everything unchanged", w, cs[0] if cs else w.node)
-
 
 
 # --------------------------------------------------------------------------- checker self-test
@@ -267,7 +417,8 @@ VARIANTS = [
     V('C13', 'bounds-flip-outside-guard', _D, "            try:\n                bounds_name = new_variable.attrs['bounds']\n                bounds_variable = new_dataset[bounds_name]\n            except KeyError:\n                pass\n            else:\n                new_dataset = new_dataset.assign({\n                    bounds_name: (\n                        bounds_variable.dims,\n                        -1 * bounds_variable.values,\n                        bounds_variable.attrs,\n                        bounds_variable.encoding,\n                    ),\n                })\n\n            # Update this so the deep-to-shallow normalization can use it\n            data_positive_down = positive_down\n",
       "            # Update this so the deep-to-shallow normalization can use it\n            data_positive_down = positive_down\n\n        if positive_down is not None:\n            try:\n                bounds_name = new_variable.attrs['bounds']\n                bounds_variable = new_dataset[bounds_name]\n            except KeyError:\n                pass\n            else:\n                new_dataset = new_dataset.assign({\n                    bounds_name: (\n                        bounds_variable.dims,\n                        -1 * bounds_variable.values,\n                        bounds_variable.attrs,\n                        bounds_variable.encoding,\n                    ),\n                })\n", ('R13.3', 'R13.5')),
     V('C13', 'bounds-not-negated', _D, "                        -1 * bounds_variable.values,", "                        bounds_variable.values,", 'R13.3'),
-    V('C13', 'sign-not-updated', _D, "            data_positive_down = positive_down\n", "            pass\n", 'R13.3'),
+    V('C13', 'bounds-only-data-vars', _D, "                bounds_variable = new_dataset[bounds_name]", "                bounds_variable = new_dataset.data_vars[bounds_name]", 'R13.3'),
+    V('C13', 'sign-not-updated', _D, "            data_positive_down = positive_down\n", "            pass\n", ('R13.3', 'R13.4')),
     V('C13', 'reverse-one-variable', _D, "                new_dataset = new_dataset.isel({dimension: numpy.s_[::-1]})", "                new_dataset[name] = new_variable.isel({dimension: numpy.s_[::-1]})", 'R13.4'),
     V('C13', 'order-test-inverted', _D, "            data_deep_to_shallow = (d1 > d2) == data_positive_down", "            data_deep_to_shallow = (d1 < d2) == data_positive_down", 'R13.4'),
     V('C13', 'order-from-input', _D, "            d1, d2 = new_variable.values[0:2]", "            d1, d2 = variable.values[0:2]", 'R13.4'),
@@ -278,4 +429,5 @@ VARIANTS = [
     # benign
     V('C13', 'benign-unary-minus', _D, "            new_values = -1 * new_variable.values", "            new_values = -new_variable.values", None),
     V('C13', 'benign-slice-form', _D, "            d1, d2 = new_variable.values[0:2]", "            d1, d2 = new_variable.values[:2]", None),
+    V('C13', 'benign-inverted-attr-guard', _D, "        if 'positive' in variable.attrs:\n            positive_attr = variable.attrs.get('positive')\n            data_positive_down = (positive_attr == 'down')\n        else:", "        if 'positive' in variable.attrs:\n            data_positive_down = (variable.attrs['positive'] == 'down')\n        else:", None),
 ]
